@@ -16,12 +16,13 @@
 from __future__ import annotations
 
 import ast
+import copy
 from typing import Any, Iterable
 
-from ..engine.normalize import ANCHOR_NAMES, _bind, _strip_doc, inline_helpers
+from ..engine.normalize import ANCHOR_NAMES, _strip_doc, inline_helpers
 from ..engine.report import AnalysisError
 from ..engine.resolver import ClassInfo, FuncInfo, Program
-from ..engine.sympath import Effect, Path, SymExec, SymUnsupported
+from ..engine.sympath import Effect, Path, SymExec, SymUnsupported, _Subst
 from ..engine.util import u
 
 _OK_DECORATORS = ("staticmethod", "classmethod", "override")
@@ -43,14 +44,11 @@ def catches(handler: ast.ExceptHandler) -> str:
 class FollowExec(SymExec):
     def __init__(self, prog: Program, fn: FuncInfo, max_depth: int = 4, max_paths: int = 2048,
                  anchors: Iterable[str] = ()) -> None:
-        super().__init__(max_paths=max_paths)
+        super().__init__(max_paths=max_paths, follow=self._follow_target)
         self.prog = prog
         self.fn = fn
         self.anchors = set(ANCHOR_NAMES) | set(anchors)   # functions bound by role: never read into a caller
-        self.max_depth = max_depth
         self.guard: list[str] = []      # catch levels of the enclosing try bodies
-        self.stack: list[str] = []      # helpers being followed
-        self.followed: set[str] = set()
         self.unfollowed: set[str] = set()
 
     # ------------------------------------------------------------------ helper resolution
@@ -68,7 +66,9 @@ class FollowExec(SymExec):
             return func.id
         return None
 
-    def _target(self, call: ast.Call) -> FuncInfo | None:
+    def _follow_target(self, call: ast.Call) -> Any:
+        """`follow` callback of the engine: the FunctionDef of the private helper a call denotes (the
+        engine then executes it on the path, wherever in an expression the call stands)."""
         name = self.helper_name(call.func)
         if name is None:
             return None
@@ -79,13 +79,13 @@ class FollowExec(SymExec):
             h = self.prog.resolve_method(self.fn.cls, name)
             if h is not None and any(name in sub.methods for sub in self.prog.subclasses(self.fn.cls)):
                 h = None
-        ok = h is not None and not h.is_async and name not in self.stack and len(self.stack) < self.max_depth \
-            and all(isinstance(d, ast.Name) and d.id in _OK_DECORATORS for d in h.node.decorator_list) \
-            and not any(isinstance(n, (ast.Yield, ast.YieldFrom)) for n in ast.walk(h.node))
+        ok = h is not None and h.node is not self.fn.node \
+            and all(isinstance(d, ast.Name) and d.id in _OK_DECORATORS for d in h.node.decorator_list)
         if not ok:
             self.unfollowed.add(name)
             return None
-        return h
+        assert h is not None
+        return h.node
 
     # ------------------------------------------------------------------ effects carry the try context
     def _log(self, p: Path, orig: ast.AST, sub: ast.AST, lineno: int) -> None:
@@ -97,66 +97,30 @@ class FollowExec(SymExec):
             if e.kind == "call" and isinstance(e.node, ast.Call):
                 name = self.helper_name(e.node.func)
                 if name is not None:
-                    self.unfollowed.add(name)   # evaluated, but not walked
+                    self.unfollowed.add(name)   # evaluated, but not walked (recursion, depth, arity ...)
 
     # ------------------------------------------------------------------ statements
     def stmt(self, p: Path, s: ast.stmt) -> list[tuple[Path, str]]:
         if isinstance(s, ast.Try):
             return self._try(p, s)
-        v = getattr(s, "value", None) if isinstance(s, (ast.Expr, ast.Assign, ast.AnnAssign, ast.Return)) else None
-        if isinstance(v, ast.Call):
-            h = self._target(v)
-            if h is not None:
-                res = self._follow(p, s, v, h)
-                if res is not None:
-                    return res
-                self.unfollowed.add(h.name)
+        if isinstance(s, ast.FunctionDef) and not s.decorator_list:
+            # a closure is a value: a one-expression nested function is carried as the equivalent lambda
+            # with the variables it captures substituted (so it can be returned / passed on and still read)
+            body = [x for x in s.body if not (isinstance(x, ast.Expr) and isinstance(x.value, ast.Constant))]
+            out = super().stmt(p, s)
+            a = s.args
+            if len(body) == 1 and isinstance(body[0], (ast.Expr, ast.Return)) and body[0].value is not None \
+                    and not a.defaults and not a.kw_defaults and not a.vararg and not a.kwarg and not a.kwonlyargs:
+                bound = {x.arg for x in a.posonlyargs + a.args}
+                bound |= {n.id for n in ast.walk(body[0]) if isinstance(n, ast.Name) and isinstance(n.ctx, ast.Store)}
+                value = _Subst({k: v for k, v in p.env.items() if k not in bound}).visit(copy.deepcopy(body[0].value))
+                plain = ast.arguments(posonlyargs=[], args=[ast.arg(arg=x.arg) for x in a.posonlyargs + a.args],
+                                      kwonlyargs=[], kw_defaults=[], defaults=[])
+                lam = ast.copy_location(ast.Lambda(args=plain, body=value), s)
+                ast.fix_missing_locations(lam)
+                p.env[s.name] = lam
+            return out
         return super().stmt(p, s)
-
-    def _follow(self, p: Path, s: ast.stmt, call: ast.Call, h: FuncInfo) -> list[tuple[Path, str]] | None:
-        ln = getattr(s, "lineno", 0)
-        binds = _bind(h.node, call)
-        if binds is None:
-            return None
-        cur: list[tuple[Path, dict[str, ast.AST]]] = [(p, {})]
-        for name, arg in binds.items():       # arguments are evaluated in the caller's environment
-            nxt = []
-            for q, env in cur:
-                for q2, e in self.ev(q, arg, ln):
-                    nxt.append((q2, {**env, name: e}))
-            cur = nxt
-        out: list[tuple[Path, str]] = []
-        for q, env in cur:
-            saved = dict(q.env)
-            q.env = env
-            self.stack.append(h.name)
-            self.followed.add(h.name)
-            try:
-                res = self.block(q, list(_strip_doc(h.node.body)))
-            finally:
-                self.stack.pop()
-            for r, st in res:
-                if st in ("break", "continue"):
-                    raise SymUnsupported(f"{h.name}: {st} outside a loop")
-                if st == "raise":
-                    out.append((r, st))
-                    continue
-                val: ast.AST = r.ret if st == "return" and r.ret is not None else ast.Constant(None)
-                r.ret, r.exit = None, ""
-                r.env = dict(saved)
-                if isinstance(s, ast.Expr):
-                    out.append((r, "next"))
-                elif isinstance(s, ast.Assign):
-                    for t in s.targets:
-                        self._bind(r, t, val, ln)
-                    out.append((r, "next"))
-                elif isinstance(s, ast.AnnAssign):
-                    self._bind(r, s.target, val, ln)
-                    out.append((r, "next"))
-                else:
-                    r.ret, r.exit, r.lineno = val, "return", ln
-                    out.append((r, "return"))
-        return out
 
     def _try(self, p: Path, s: ast.Try) -> list[tuple[Path, str]]:
         """As SymExec's try (handler paths fork from the entry of the try), with the catch level of the
@@ -267,6 +231,79 @@ def hoist_walrus(tree: ast.AST) -> None:
     ast.fix_missing_locations(tree)
 
 
+def _pattern_test(pat: ast.AST, subj: ast.expr) -> tuple[ast.expr | None, list[ast.stmt]] | None:
+    """(condition or None for 'always', bindings) equivalent to matching `subj` against a value /
+    singleton / or / capture / wildcard pattern; None for pattern kinds that are not desugared."""
+    if isinstance(pat, ast.MatchValue):
+        return ast.Compare(left=copy.deepcopy(subj), ops=[ast.Eq()], comparators=[pat.value]), []
+    if isinstance(pat, ast.MatchSingleton):
+        return ast.Compare(left=copy.deepcopy(subj), ops=[ast.Is()], comparators=[ast.Constant(pat.value)]), []
+    if isinstance(pat, ast.MatchOr):
+        parts = [_pattern_test(x, subj) for x in pat.patterns]
+        if any(x is None or x[1] for x in parts):
+            return None
+        if any(x[0] is None for x in parts):  # type: ignore[index]
+            return None, []
+        return ast.BoolOp(op=ast.Or(), values=[x[0] for x in parts]), []  # type: ignore[index,misc]
+    if isinstance(pat, ast.MatchAs):
+        inner: tuple[ast.expr | None, list[ast.stmt]] | None = (None, []) if pat.pattern is None \
+            else _pattern_test(pat.pattern, subj)
+        if inner is None:
+            return None
+        binds = list(inner[1])
+        if pat.name is not None:
+            binds.append(ast.Assign(targets=[ast.Name(id=pat.name, ctx=ast.Store())], value=copy.deepcopy(subj)))
+        return inner[0], binds
+    return None
+
+
+def desugar_match(tree: ast.AST) -> None:
+    """`match` over value / singleton / or / capture / wildcard patterns (with guards) -> the equivalent
+    if / elif chain, in place; other pattern kinds are left alone (the walker then fails closed)."""
+    n_tmp = 0
+    for node in list(ast.walk(tree)):
+        for field in ("body", "orelse", "finalbody"):
+            suite = getattr(node, field, None)
+            if not (isinstance(suite, list) and suite and isinstance(suite[0], ast.stmt)):
+                continue
+            i = 0
+            while i < len(suite):
+                m = suite[i]
+                i += 1
+                if not isinstance(m, ast.Match):
+                    continue
+                pre: list[ast.stmt] = []
+                subj: ast.expr = m.subject
+                if not isinstance(subj, (ast.Name, ast.Attribute, ast.Constant)):
+                    n_tmp += 1
+                    pre.append(ast.Assign(targets=[ast.Name(id=f"__match_subject_{n_tmp}", ctx=ast.Store())], value=subj))
+                    subj = ast.Name(id=f"__match_subject_{n_tmp}", ctx=ast.Load())
+                arms: list[tuple[ast.expr | None, list[ast.stmt]]] = []
+                ok = True
+                for case in m.cases:
+                    t = _pattern_test(case.pattern, subj)
+                    if t is None or (t[1] and case.guard is not None):   # a guard may read the capture: keep it simple
+                        ok = False
+                        break
+                    cond = t[0]
+                    if case.guard is not None:
+                        cond = case.guard if cond is None else ast.BoolOp(op=ast.And(), values=[cond, case.guard])
+                    arms.append((cond, t[1] + case.body))
+                    if cond is None:
+                        break       # irrefutable: later cases are unreachable
+                if not ok:
+                    continue
+                chain: list[ast.stmt] = []
+                for cond, body in reversed(arms):
+                    chain = list(body) if cond is None else [ast.If(test=cond, body=list(body), orelse=chain)]
+                new = pre + (chain or [ast.Pass()])
+                for x in new:
+                    ast.copy_location(x, m)
+                    ast.fix_missing_locations(x)
+                suite[i - 1:i] = new
+                i += len(new) - 1
+
+
 class Walk:
     """One anchored function read through its helpers: the tree with simple helpers spliced in and a
     FollowExec for what is left."""
@@ -275,6 +312,7 @@ class Walk:
         self.fn = fn
         self.tree = inline_helpers(prog, fn, exclude=anchors)
         self.spliced: set[str] = set(getattr(self.tree, "_spliced", ()))
+        desugar_match(self.tree)
         hoist_walrus(self.tree)
         self.ex = FollowExec(prog, fn, anchors=anchors)
         try:
@@ -341,16 +379,35 @@ class HelperGraph:
         return out
 
 
-def callback_target(cb: ast.AST, nested: dict[str, ast.FunctionDef]) -> str | None:
+def callback_target(cb: ast.AST, nested: dict[str, ast.FunctionDef],
+                    methods: dict[str, FuncInfo] | None = None, depth: int = 0,
+                    module_functions: dict[str, FuncInfo] | None = None) -> str | None:
     """The method `self.<name>` a done-callback expression ends up calling: `self.m`, `lambda t:
-    self.m(...)`, `functools.partial(self.m, ...)` or a nested one-statement def doing the same."""
+    self.m(...)`, `functools.partial(self.m, ...)`, a nested one-statement def doing the same, or a
+    call of a private method that *returns* one of these (a callback factory)."""
     def self_attr(e: ast.AST) -> str | None:
-        return e.attr if isinstance(e, ast.Attribute) and isinstance(e.value, ast.Name) and e.value.id == "self" else None
+        # `self.m`; inside a factory the actor may travel under another name: any `<name>.m` with m a method
+        if isinstance(e, ast.Attribute) and isinstance(e.value, ast.Name) and (
+                e.value.id == "self" or (depth > 0 and methods is not None and e.attr in methods)):
+            return e.attr
+        return None
 
     if isinstance(cb, ast.Lambda):
         return self_attr(cb.body.func) if isinstance(cb.body, ast.Call) else None
     if isinstance(cb, ast.Call) and u(cb.func).split(".")[-1] == "partial" and cb.args:
         return self_attr(cb.args[0])
+    factory: Any = None
+    if isinstance(cb, ast.Call) and methods is not None and depth < 3:
+        if self_attr(cb.func) in methods:
+            factory = methods[self_attr(cb.func)].node  # type: ignore[index]
+        elif isinstance(cb.func, ast.Name) and module_functions is not None and cb.func.id in module_functions:
+            factory = module_functions[cb.func.id].node
+    if factory is not None:
+        inner = {n.name: n for n in ast.walk(factory) if isinstance(n, ast.FunctionDef) and n is not factory}
+        found = {callback_target(r.value, inner, methods, depth + 1, module_functions) for r in ast.walk(factory)
+                 if isinstance(r, ast.Return) and r.value is not None
+                 and not any(r in ast.walk(d) for d in inner.values())}
+        return next(iter(found)) if len(found) == 1 else None
     if isinstance(cb, ast.Name) and cb.id in nested:
         stmts = [x for x in nested[cb.id].body if not (isinstance(x, ast.Expr) and isinstance(x.value, ast.Constant))]
         if len(stmts) == 1 and isinstance(stmts[0], (ast.Expr, ast.Return)) and isinstance(stmts[0].value, ast.Call):
